@@ -93,15 +93,15 @@ func loadModule(m module, patterns []string) (*Prog, error) {
 	}
 	for _, sp := range prog.AllPackages() {
 		p.byPath[sp.Pkg.Path()] = sp
-		if _, ok := p.byName[sp.Pkg.Name()]; !ok {
-			p.byName[sp.Pkg.Name()] = sp
+		if _, ok := p.byName[pkgKey(sp.Pkg)]; !ok {
+			p.byName[pkgKey(sp.Pkg)] = sp
 		}
 	}
 	for i, sp := range ssaPkgs {
 		if sp == nil {
 			continue
 		}
-		p.byName[sp.Pkg.Name()] = sp
+		p.byName[pkgKey(sp.Pkg)] = sp
 		p.files = append(p.files, pkgs[i].CompiledGoFiles...)
 	}
 	sort.Strings(p.files)
@@ -156,10 +156,10 @@ func funcKey(fn *ssa.Function) string {
 	}
 	pkgName := ""
 	if fn.Pkg != nil {
-		pkgName = fn.Pkg.Pkg.Name()
+		pkgName = pkgKey(fn.Pkg.Pkg)
 	} else if fn.Signature.Recv() != nil {
 		if n := namedOf(fn.Signature.Recv().Type()); n != nil && n.Obj().Pkg() != nil {
-			pkgName = n.Obj().Pkg().Name()
+			pkgName = pkgKey(n.Obj().Pkg())
 		}
 	}
 	if recv := fn.Signature.Recv(); recv != nil {
@@ -250,19 +250,34 @@ func (p *Prog) methodFor(t types.Type, m *types.Func) *ssa.Function {
 	}
 	_, isPtr := types.Unalias(t).(*types.Pointer)
 	if isPtr {
-		if fn := p.byKey[fmt.Sprintf("%s.(*%s).%s", n.Obj().Pkg().Name(), n.Obj().Name(), m.Name())]; fn != nil {
+		if fn := p.byKey[fmt.Sprintf("%s.(*%s).%s", pkgKey(n.Obj().Pkg()), n.Obj().Name(), m.Name())]; fn != nil {
 			return fn
 		}
 	}
-	return p.byKey[fmt.Sprintf("%s.(%s).%s", n.Obj().Pkg().Name(), n.Obj().Name(), m.Name())]
+	return p.byKey[fmt.Sprintf("%s.(%s).%s", pkgKey(n.Obj().Pkg()), n.Obj().Name(), m.Name())]
 }
 
 // isInitial: the package (by short name) is one of the module's own packages (loaded with syntax).
 func (p *Prog) isInitial(name string) bool {
 	for _, sp := range p.ssaPkgs {
-		if sp != nil && sp.Pkg.Name() == name {
+		if sp != nil && pkgKey(sp.Pkg) == name {
 			return true
 		}
 	}
 	return false
+}
+
+// pkgAliases: import path -> the name contracts use for the package. Two packages of one module may share their
+// short name (the two AWS KMS plugins are both `kms`): a contract file can rename its package for the verifier with
+// `//@ pkgalias name`.
+var pkgAliases = map[string]string{}
+
+func pkgKey(p *types.Package) string {
+	if p == nil {
+		return ""
+	}
+	if a, ok := pkgAliases[p.Path()]; ok {
+		return a
+	}
+	return p.Name()
 }
